@@ -121,6 +121,13 @@ func (r *c38Restart) module() (*StateModule, error) {
 	return NewStateModule(nil, ss, nil, nil), nil
 }
 
+func c38First(v []byte) byte {
+	if len(v) == 0 {
+		return 0
+	}
+	return v[0]
+}
+
 func c38HexKeys(ks []string) []string {
 	out := make([]string, len(ks))
 	for i, k := range ks {
@@ -193,7 +200,7 @@ func TestC38PersistedListing(t *testing.T) {
 					return fmt.Errorf("Put(%x): %w", p.k, err)
 				}
 				model[string(p.k)] = append([]byte{}, p.v...)
-				descr += fmt.Sprintf(" %x:%d/%02x", p.k, len(p.v), append(p.v, 0)[0])
+				descr += fmt.Sprintf(" %x:%d/%02x", p.k, len(p.v), c38First(p.v))
 			}
 			return nil
 		})
@@ -230,7 +237,7 @@ func TestC38PersistedListing(t *testing.T) {
 							return fmt.Errorf("Put(%x): %w", k, err)
 						}
 						model[string(k)] = append([]byte{}, v...)
-						descr += fmt.Sprintf(" %x:%d/%02x", k, len(v), append(v, 0)[0])
+						descr += fmt.Sprintf(" %x:%d/%02x", k, len(v), c38First(v))
 					}
 				}
 				return nil
